@@ -517,6 +517,17 @@ def block(ctx: Ctx, stmts, ret_wrap, ind="  ") -> str:
         return ctx.ctl["break"]()
     if isinstance(s, ast.For):
         return for_loop(ctx, s, rest, ret_wrap, ind)
+    if isinstance(s, ast.Try):
+        # `try: X = <call> except NotImplementedError: X = None`: the call is an Option-valued oracle whose `none`
+        # covers both "returned None" and "raised NotImplementedError"
+        ok = (len(s.handlers) == 1 and not s.orelse and not s.finalbody and ast.unparse(s.handlers[0].type) == "NotImplementedError"
+              and len(s.body) == 1 and isinstance(s.body[0], ast.Assign) and len(s.handlers[0].body) == 1
+              and isinstance(s.handlers[0].body[0], ast.Assign)
+              and ast.unparse(s.handlers[0].body[0].targets[0]) == ast.unparse(s.body[0].targets[0])
+              and ast.unparse(s.handlers[0].body[0].value) == "None")
+        if not ok:
+            raise Untranslatable("try/except of an unsupported shape")
+        return block(ctx, list(s.body) + rest, ret_wrap, ind)
     m = mutated_name(s)
     if m is not None:
         if m not in (set(getattr(ctx, "defined", set())) | {p for p, _ in ctx.all_params}):
@@ -578,7 +589,12 @@ def block(ctx: Ctx, stmts, ret_wrap, ind="  ") -> str:
                     ty = infer(ctx, s.value)
                 if ty:
                     ctx.types[tgt.id] = ty
-            val = as_val(ctx, s.value) if ty == "Val" else expr(ctx, s.value, ty)
+            vt = infer(ctx, s.value) if isinstance(s.value, ast.Name) else None
+            if vt and ty and vt == f"Option {ty}":
+                # `x = opt` under an `opt is not None` guard
+                val = f"({li(s.value.id)}.getD {li(tgt.id)})"
+            else:
+                val = as_val(ctx, s.value) if ty == "Val" else expr(ctx, s.value, ty)
             names = f"{li(tgt.id)} : {ty}" if ty and ty != "List _" else li(tgt.id)
         return f"let {names} := {val}\n{ind}" + block(ctx, rest, ret_wrap, ind)
     if isinstance(s, ast.AugAssign):
@@ -644,6 +660,17 @@ def block(ctx: Ctx, stmts, ret_wrap, ind="  ") -> str:
         vs = [li(v) for v in vs]
         if len(vs) == 1:
             tup = vs[0]
+            return (
+                f"let {tup} := (if {c} then\n{ind}  "
+                + yield_block(s.body, tup)
+                + f"\n{ind}else\n{ind}  "
+                + yield_block(s.orelse, tup)
+                + f")\n{ind}"
+                + block(ctx, rest, ret_wrap, ind)
+            )
+        if getattr(ctx, "join", "scalar") == "tuple":
+            # one tuple-valued `if` (no replay of the branches: linear size also for nested joins)
+            tup = "(" + ", ".join(vs) + ")"
             return (
                 f"let {tup} := (if {c} then\n{ind}  "
                 + yield_block(s.body, tup)
@@ -824,6 +851,7 @@ def for_loop(ctx, node, rest, ret_wrap, ind):
     sub.fn_name, sub.all_params, sub.aux, sub.fn_wrap = ctx.fn_name, ctx.all_params, ctx.aux, ctx.fn_wrap
     sub.ret_type_full = ctx.ret_type_full
     sub.loop_counter = ctx.loop_counter
+    sub.join = getattr(ctx, "join", "scalar")
     sub.defined = set(getattr(ctx, "defined", set())) | set(tgt_types)
     sub.ctl = {"continue": lambda: rec.strip(), "break": lambda: done}
     sub.fall = lambda: rec.strip()
@@ -880,6 +908,7 @@ def translate_function(
     extra_params=(),
     default_num=None,
     returns_var=None,
+    join="scalar",
 ):
     """Translate function `qual` (or a statement slice of it) into one Lean definition."""
     tree = ast.parse(source)
@@ -912,6 +941,7 @@ def translate_function(
     ctx.ret_type_full = rty
     ctx.raise_wrap_fn = lambda n: f'.error "{n}"'
     ctx.defined = set()
+    ctx.join = join
     body = block(ctx, stmts, wrap)
     sig = " ".join((f"{{{k[1:-1]} : {v}}}" if k.startswith("{") else k if k.startswith("[") else f"({li(k)} : {v})") for k, v in list(extra_params) + list(params.items()))
     return "\n".join(ctx.aux) + ("\n" if ctx.aux else "") + f"def {lean_name} {sig} : {rty} :=\n  {body}\n"
